@@ -20,7 +20,7 @@ ENV_STRINGS = {
     "implementation_name": ["cpython", "pypy"],
     "platform_version": ["10.0.0", "10.0", "#1 SMP"],
 }
-PY_VERSIONS = ["2.7.18", "3.0.0", "3.1.4", "3.4.0", "3.5.2", "3.6.0", "3.7.9", "3.8.0", "3.8.5", "3.9.0", "3.9.18", "3.10.0", "3.10.4", "3.11.1",
+PY_VERSIONS = ["2.7.18", "3.0.0", "3.1.4", "3.4.0", "3.5.2", "3.6.0", "3.7.9", "3.8.0", "3.8.1", "3.8.5", "3.9.0", "3.9.18", "3.10.0", "3.10.4", "3.11.1",
                "3.12.0", "4.0.0"]
 CMP_OPS = ["==", "!=", "<", "<=", ">", ">=", "~="]
 PYV_VALUES = ["3", "3.8", "3.10", "2.7", "3.9", "3.8.1"]      # "3.8.1": a literal longer than the variable's own X.Y (`python_version >= "3.8.1"` is `>= 3.9`)
